@@ -119,6 +119,29 @@ Theorem C19_fairness_plain n st h i :
   exists t g, t < n /\ nth_error (run n false st h) t = Some g /\ nth i g false = true.
 Proof. intros; apply fairness_plain; [lia|assumption..]. Qed.
 
+(* --- the input granted last has the least priority: pointer just past i => i wins only when alone;
+       and on the code's machine, no input is granted in two consecutive advancing cycles while another requests *)
+Theorem C19_last_granted_has_least_priority n reqs i j :
+  2 <= n -> i < n -> j < n -> j <> i -> reqs j = true ->
+  spec_grants n reqs ((i + 1) mod n) i = false.
+Proof. intros; apply (last_granted_least_priority n reqs i j); [lia|assumption..]. Qed.
+
+Theorem C19_no_back_to_back_grant n isEn p c c' g j :
+  2 <= n -> p < n -> c_rst c = false -> advances isEn c = true ->
+  spec_grant_index n (c_reqs c) p = Some g ->
+  j < n -> j <> g -> c_reqs c' j = true ->
+  nth g (fst (step n isEn (snd (step n isEn (ptr_state n p) c)) c')) false = false.
+Proof. intros; apply (no_back_to_back_grant n isEn p c c' g j); [lia|assumption..]. Qed.
+
+Example no_back_to_back_nonvacuous :
+  (* nreqs = 3, pointer at 1, inputs 1 and 2 request: 1 wins; next cycle 1 and 0 request: 0 wins, not 1 *)
+  let c  : cyc := (false, true, bv_of_Z 6) in
+  let c' : cyc := (false, true, bv_of_Z 3) in
+  spec_grant_index 3 (c_reqs c) 1 = Some 1 /\
+  fst (step 3 true (snd (step 3 true (ptr_state 3 1) c)) c') = [true; false; false].
+Proof. vm_compute. split; reflexivity. Qed.
+
+
 (* --- what a passing correspondence case of harness/c19.py establishes *)
 Theorem C19_replay_ok_sound isEn n h obs :
   2 <= n -> replay_ok (isEn, false, n, h, obs) = true ->
@@ -160,3 +183,5 @@ Print Assumptions C19_pointer_moves_past_granted. Print Assumptions C19_no_reque
 Print Assumptions C19_en_low_keeps_priority. Print Assumptions C19_plain_is_en_tied_high.
 Print Assumptions C19_fair_measure. Print Assumptions C19_fairness. Print Assumptions C19_fairness_plain.
 Print Assumptions C19_replay_ok_sound. Print Assumptions C19_nonvacuous.
+Print Assumptions C19_last_granted_has_least_priority. Print Assumptions C19_no_back_to_back_grant.
+Print Assumptions no_back_to_back_nonvacuous.
